@@ -15,6 +15,9 @@ CHECKS = {
   "C07": ("Hypothesis vs independent dict-of-Fractions polynomial arithmetic, plus ring-law, homomorphism, round-trip (integrate/diff) and interpolation oracles, all exact",
           "Generated Laurent polynomials with exact rational coefficients through four construction routes; every operator result is compared term by term with an independent reference arithmetic, and the stated laws are asserted as exact equalities. Falsification power over the whole operator surface; sampled, not exhaustive.",
           "Coefficients are Q (exact); powers -4..6, at most 6 terms, exponents 0..5; composition only where defined.", "3/C07"),
+  "C04": ("Hypothesis vs reference model (diffeq_ref: the difference equation evaluated in exact Fractions), exact equality on Q samples",
+          "Generated coefficient vectors with forced special classes (0, +-1, ints, arbitrary floats, Fractions, sparse delays), five construction routes, seven memory kinds and six zero values; every output sample is compared exactly with an independent evaluation of the difference equation, so a wrong sign on a special-cased path, a one-sample state shift or a mis-read memory shows on almost every case. Sampled, not exhaustive.",
+          "Samples are Q; floats are taken at their exact binary value; orders <= 9, inputs <= 12 samples; non-dyadic Fraction coefficients compared within 1e-12 x magnitude recursion.", "3/C04"),
 }
 NOT_BUILT = "check not built yet in this session (planned in DESIGN.md section 3); no claim is made until it is"
 
